@@ -39,8 +39,13 @@ func runC19Keys(c C19Keys, info *kit.Info) *kit.Finding {
 	// K is in every list, L (a material of its own) in none.
 	K := kit.KeySpec{ID: "always", Cipher: kit.Chacha, Secret: "always-there"}
 	L := kit.KeySpec{ID: "never", Cipher: kit.AES256, Secret: "never-there"}
+	// R alternates: in the list in even rounds, out in odd rounds, and out at the end.
+	R := kit.KeySpec{ID: "revoked-at-the-end", Cipher: kit.AES192, Secret: "comes-and-goes"}
 	mk := func(round int) []kit.KeySpec {
 		var l []kit.KeySpec
+		if round%2 == 0 && round < c.Updates {
+			l = append(l, R)
+		}
 		for i, k := range c.Universe {
 			if (int(c.Seed)+round+i)%3 != 0 {
 				l = append(l, k)
@@ -72,6 +77,9 @@ func runC19Keys(c C19Keys, info *kit.Info) *kit.Finding {
 				if i%3 == 2 {
 					ks = L
 				}
+				if i%5 == 4 {
+					ks = R // during the churn either answer is right
+				}
 				key := ks.Key()
 				wire := kit.EncodeStream(key, kit.DetBytes(c.Seed+int64(g*100000+i), key.SaltSize()), append(kit.SocksAddrFor("192.0.2.9:80", false), "x"...), nil)
 				id, _, err := auth(kit.NewMemConn(wire, &net.TCPAddr{IP: ip, Port: 1000 + i}))
@@ -86,8 +94,20 @@ func runC19Keys(c C19Keys, info *kit.Info) *kit.Finding {
 	}
 	wg.Wait()
 	stop.Store(true)
+	if f := fnd.Load(); f != nil {
+		return f
+	}
+	// After the churn: the final list (installed by the last update) does not contain R, whatever raced with it.
+	cl.Update(kit.CipherEntries(mk(c.Updates)))
+	for g := 0; g < 4; g++ {
+		key := R.Key()
+		wire := kit.EncodeStream(key, kit.DetBytes(c.Seed+int64(9000000+g), key.SaltSize()), append(kit.SocksAddrFor("192.0.2.9:80", false), "x"...), nil)
+		if id, _, err := auth(kit.NewMemConn(wire, &net.TCPAddr{IP: net.IPv4(203, 0, 113, byte(g)), Port: 99})); err == nil {
+			return kit.Violation("keylist:revoked-key-resurrected", "a key that is not in the final list authenticated as %q after concurrent lookups and replacements: a lookup racing with a replacement put it back", id)
+		}
+	}
 	info.NonTrivial, info.Steps = true, c.Lookers*c.Lookups
-	return fnd.Load()
+	return nil
 }
 
 func TestC19_KeyList(t *testing.T) {
